@@ -2,6 +2,7 @@
 from facts import Sym, path_is, strip_generics, strip_sym, sym_arg, sym_calls, sym_is_call, sym_str, sym_through, sym_walk
 from props.common import RECORDER_METHODS, arg_syms, atomic_ops, callee_method_name, crate_stats, enum_arms, gates, in_cycle, kind_consistent, need, nonforeign_calls, one_method, recorder_impls, siblings_isomorphic
 
+KEEP = []  # DebuggingRecorder::{track_metric, describe_metric} and other private helpers are spliced into the Recorder methods
 TITLE = "C19 debugging snapshots show every registered metric with its true current state."
 CONFIGS = ["test-profile", "util-debugging"]
 DBG = "metrics_util::debugging"
@@ -13,15 +14,25 @@ def is_param(s, i):
     return a is not None and a[0] == i
 
 
+def ctor_args(s, ty_suffix):
+    """arguments of `<Ty>::new(a, b)` whether still a call or already spliced into an aggregate"""
+    s = strip_sym(s)
+    if sym_is_call(s, f"{ty_suffix}::new"):
+        return [strip_sym(x) for x in s[2]]
+    if s[0] == "agg" and (s[5] or "").endswith(ty_suffix):
+        return [strip_sym(x) for x in s[3]]
+    return None
+
+
 def run(ctx):
     chk = ctx.check
     u = ctx.crate("metrics_util")
     m = ctx.crate("metrics")
     crate_stats(chk, u)
     chk.rule("C19.a", "KIND+MPT registration: register_<kind> tracks (MetricKind::<kind>, key.clone()) on every path and then get_or_create_<kind>s the storage, returning the matching handle; the triplet is isomorphic and mentions only its own kind", floor=9)
-    chk.rule("C19.b", "WMC: `seen` is written only by track_metric, which only register_* call (descriptions never create entries); `metadata` is written only by describe_metric", floor=2)
+    chk.rule("C19.b", "WMC (helpers spliced in): the registration table is touched only by register_* and snapshot (descriptions never create entries); the description table only by describe_* and snapshot", floor=2)
     chk.rule("C19.c", "TBL snapshot: iterates `seen` in insertion order; each kind arm reads the map of that kind; histograms are drained with clear_with and every drained slice is ACCUMULATED; a metric is emitted only when a value exists; metadata is looked up by (kind, name)", floor=6)
-    chk.rule("C19.d", "TBL describe_metric: the unit is overwritten only when Some, the description always; describe_<kind> passes MetricKind::<kind> and its arguments", floor=5)
+    chk.rule("C19.d", "TBL describe_<kind> (helpers spliced in): files under (MetricKind::<kind>, name); the stored unit is overwritten only when the new one is Some, the description always", floor=9)
     chk.rule("C19.e", "imported from C01.a: with_recorder prefers the thread-local recorder over the global one, so a locally installed debugging recorder sees exactly its own thread's emissions", floor=1)
     chk.trust("IndexMap insertion order", "Registry (C06)", "AtomicBucket::clear_with (C05)")
     chk.residue.append("values under concurrent updates rest on C04/C05 and are not re-decided here")
@@ -34,34 +45,92 @@ def run(ctx):
     if rec is None:
         chk.unrecognised("C19.a", "<anchor> impl Recorder for DebuggingRecorder", "missing")
         return
-    # ---------------- C19.a / C19.d
+    # ---------------- roles: Inner's two tables by type
+    inner_adt = u.adts.get(f"{DBG}::Inner")
+    seen_f = meta_f = None
+    for fl in (inner_adt or {}).get("variants", [{}])[0].get("fields", []):
+        ty = fl.get("ty", "")
+        if "CompositeKeyName" in ty:
+            meta_f = fl["name"]
+        elif "CompositeKey" in ty:
+            seen_f = fl["name"]
+    if not (seen_f and meta_f):
+        chk.unrecognised("C19.b", "<anchor> debugging::Inner tables", f"cannot tell the registration table from the description table (fields {[f_['name'] for f_ in (inner_adt or {}).get('variants', [{}])[0].get('fields', [])]})")
+        return
+    MUTS = ("insert", "insert_full", "entry", "or_insert", "or_insert_with", "or_default", "extend", "remove", "swap_remove", "shift_remove", "clear", "retain", "get_mut", "insert_entry")
+
+    def table_muts(f, field):
+        out = []
+        for c in nonforeign_calls(f):
+            if "indexmap" in (c.resolved or "") and callee_method_name(c) in MUTS and f"'{field}'" in repr(Sym(c.fn).operand(c.args[0])):
+                out.append(c)
+        return out
+
+    from facts import PredFlow
+
+    # ---------------- C19.a / C19.d  (track_metric / describe_metric spliced in)
     for k in KINDS:
         f = rec.get(f"register_{k}")
         if f:
             b = f.body
             kind_consistent(chk, "C19.a", f, k)
-            tm = [c for c in nonforeign_calls(f) if c.fn is f and c.is_("DebuggingRecorder::track_metric")]
+            tm = [c for c in table_muts(f, seen_f) if c.fn is f]
             goc = [c for c in nonforeign_calls(f) if c.fn is f and c.is_(f"Registry<K, S>::get_or_create_{k}")]
-            ok = len(tm) == 1 and len(goc) == 1 and not [r for r in b.return_blocks() if r in b.reachable(0, cut={tm[0].bb})] and not gates(b, tm[0].bb)
+            ok = len(tm) == 1 and callee_method_name(tm[0]) == "insert" and len(goc) == 1 and not [r for r in b.return_blocks() if r in b.reachable(0, cut={tm[0].bb})] and not [1 for dd, lab in gates(b, tm[0].bb) if lab in (True, False, "Some", "None", "Ok", "Err")]
             if ok:
                 ck = strip_sym(arg_syms(tm[0])[1])
-                ok = sym_is_call(ck, "CompositeKey::new") and k.capitalize() in repr(ck[2][0]) and sym_is_call(strip_sym(ck[2][1]), "Clone::clone") and is_param(strip_sym(strip_sym(ck[2][1])[2][0]), 1)
+                ca = ctor_args(ck, "CompositeKey")
+                ok = ca is not None and len(ca) == 2 and k.capitalize() in repr(ca[0]) and sym_is_call(ca[1], "Clone::clone") and is_param(sym_through(ca[1][2][0]), 1)
                 ok = ok and is_param(arg_syms(goc[0])[1], 1) and b.dominates(tm[0].bb, goc[0].bb)
                 hc = [c for c in nonforeign_calls(f) if c.fn is not f and c.is_(f"{k.capitalize()}::from_arc")]
-                ok = ok and len(hc) == 1
-            chk.ob("C19.a", f"{f.path} [track then create]", ok, f"track_metric((MetricKind::{k.capitalize()}, key.clone())) unconditionally, then get_or_create_{k}(key, {k.capitalize()}::from_arc)" if ok else f"register_{k} does not unconditionally track (MetricKind::{k.capitalize()}, key) before creating the storage: a registered metric can be missing from every snapshot", f.loc())
+                ok = ok and len(hc) == 1 and not table_muts(f, meta_f)
+            chk.ob("C19.a", f"{f.path} [track then create]", ok, f"registration table gets (MetricKind::{k.capitalize()}, key.clone()) unconditionally, then get_or_create_{k}(key, {k.capitalize()}::from_arc)" if ok else f"register_{k} does not unconditionally track (MetricKind::{k.capitalize()}, key) before creating the storage: a registered metric can be missing from every snapshot", f.loc())
         f = rec.get(f"describe_{k}")
         if f:
+            b = f.body
+            sy = Sym(f)
             kind_consistent(chk, "C19.d", f, k)
-            dm = [c for c in nonforeign_calls(f) if c.fn is f and c.is_("DebuggingRecorder::describe_metric")]
-            ok = len(dm) == 1
+            ent = [c for c in table_muts(f, meta_f) if c.fn is f and callee_method_name(c) in ("entry", "insert", "get_mut")]
+            ok = len(ent) >= 1 and not table_muts(f, seen_f)
             if ok:
-                a = arg_syms(dm[0])
-                ckn = strip_sym(a[1])
-                ok = sym_is_call(ckn, "CompositeKeyName::new") and k.capitalize() in repr(ckn[2][0]) and is_param(ckn[2][1], 1) and is_param(a[2], 2) and is_param(a[3], 3)
-                tms = [c for c in nonforeign_calls(f) if c.is_("DebuggingRecorder::track_metric")]
-                ok = ok and not tms
-            chk.ob("C19.d", f"{f.path}", ok, f"describe_metric((MetricKind::{k.capitalize()}, name), unit, description); nothing is tracked" if ok else f"describe_{k} does not file (kind, name, unit, description) correctly, or creates a `seen` entry", f.loc())
+                ckn = strip_sym(arg_syms(ent[0])[1])
+                ckn = sym_through(ckn, "Clone::clone")
+                ca = ctor_args(ckn, "CompositeKeyName")
+                ok = ca is not None and len(ca) == 2 and k.capitalize() in repr(ca[0]) and is_param(sym_through(ca[1]), 1)
+            chk.ob("C19.d", f"{f.path}", ok, f"the description table is updated under (MetricKind::{k.capitalize()}, name); nothing is tracked" if ok else f"describe_{k} does not file (kind, name, unit, description) correctly, or creates a registration entry", f.loc())
+            # unit only when given / description always
+            def csw(subj, v):
+                return {"Some": "P", "None": "N"}.get(v) if is_param(sym_through(subj), 2) else None
+
+            def cbool(x):
+                x = strip_sym(x)
+                if sym_is_call(x, "Option<T>::is_some") and is_param(sym_through(x[2][0]), 2):
+                    return ("P", "N")
+                if sym_is_call(x, "Option<T>::is_none") and is_param(sym_through(x[2][0]), 2):
+                    return ("N", "P")
+                return None
+
+            pf = PredFlow(f, csw, cbool)  # P = "this description carries a unit"
+            unit_w, desc_w, stores = [], [], []
+            for i, kk, st in b.stmts():
+                if st["k"] == "assign" and st["p"].get("pr") and not st.get("exp") and not b.blocks[i].get("cleanup"):
+                    base = repr(strip_sym(sy.local(st["p"]["l"])))
+                    if "or_insert" in base or "get_mut" in base or "into_mut" in base or "OccupiedEntry" in base:
+                        v = sy.rvalue(st["rv"], 0, frozenset())
+                        if "('arg', 2" in repr(v):
+                            unit_w.append(i)
+                        if is_param(sym_through(v), 3):
+                            desc_w.append(i)
+            for c in nonforeign_calls(f):
+                if c.fn is f and "indexmap" in (c.resolved or "") and callee_method_name(c) == "insert" and len(c.args) >= 2:
+                    v = repr(arg_syms(c)[-1])
+                    if "('arg', 3" in v:
+                        stores.append(c.bb)
+            given_stored = bool(unit_w) or bool(stores)
+            oku = given_stored and all(pf.at(i) == "P" for i in unit_w)
+            okd = (bool(desc_w) or bool(stores)) and not [r for r in b.return_blocks() if r in b.reachable(0, cut=set(desc_w) | set(stores))]
+            chk.ob("C19.d", f"{f.path} [unit only when given]", oku, "the stored unit is replaced only when the new description carries Some(unit)" if oku else "a later description without a unit erases the earlier unit (or a given unit is not stored)", f.loc())
+            chk.ob("C19.d", f"{f.path} [description always]", okd, "the description is replaced on every describe" if okd else "the most recent description is not always stored", f.loc())
     for grp in ("describe", "register"):
         fk = {k: rec.get(f"{grp}_{k}") for k in KINDS}
         if all(fk.values()):
@@ -76,21 +145,17 @@ def run(ctx):
             for i, k, s in f.body.stmts():
                 if s["k"] != "assign":
                     continue
-                for key in ("p",):
-                    pl = s["rv"].get(key)
-                    if pl and any(isinstance(e, dict) and e.get("f") == field and "debugging::Inner" in e.get("of", "") for e in (pl.get("pr") or [])):
-                        root = f
-                        while root.parent is not None:
-                            root = root.parent
-                        users.add(root.name)
+                pl = s["rv"].get("p")
+                if pl and any(isinstance(e, dict) and e.get("f") == field and "debugging::Inner" in e.get("of", "") for e in (pl.get("pr") or [])):
+                    root = f
+                    while root.parent is not None:
+                        root = root.parent
+                    users.add(root.name)
         return users
-    for field, writers, readers in (("seen", {"track_metric"}, {"snapshot"}), ("metadata", {"describe_metric"}, {"snapshot"})):
+    for field, writers, readers, what in ((seen_f, {"register_counter", "register_gauge", "register_histogram"}, {"snapshot"}, "registration table"), (meta_f, {"describe_counter", "describe_gauge", "describe_histogram"}, {"snapshot"}, "description table")):
         us = field_users(field)
         ok = us == writers | readers
-        chk.ob("C19.b", f"debugging::Inner.{field} [who-may-touch]", ok, f"touched only by {sorted(us)}" if ok else f"`{field}` is touched by {sorted(us)}, expected {sorted(writers | readers)}", "metrics-util/src/debugging.rs")
-    tmf = one_method(chk, "C19.b", u, f"{DBG}::DebuggingRecorder", "track_metric")
-    callers = sorted({(c.fn.parent or c.fn).name if c.fn.dk == "Closure" else c.fn.name for f in u.fns for c in f.body.calls() if c.is_("DebuggingRecorder::track_metric") and "::tests::" not in f.path})
-    chk.ob("C19.b", "track_metric [who-may-call]", callers == ["register_counter", "register_gauge", "register_histogram"], f"called only from {callers}" if callers == ["register_counter", "register_gauge", "register_histogram"] else f"track_metric is called from {callers}: only registrations may create snapshot entries", tmf.loc() if tmf else "")
+        chk.ob("C19.b", f"debugging::Inner {what} [who-may-touch]", ok, f"touched only by {sorted(us)}" if ok else f"the {what} is touched by {sorted(us)}, expected {sorted(writers | readers)}: only registrations may create snapshot entries, only descriptions may write metadata", "metrics-util/src/debugging.rs")
 
     # ---------------- C19.c
     snap = one_method(chk, "C19.c", u, f"{DBG}::Snapshotter", "snapshot")
@@ -136,27 +201,14 @@ def run(ctx):
         pushes = [c for c in nonforeign_calls(snap) if c.fn is snap and c.is_("Vec<T, A>::push")]
         ok = len(pushes) == 1 and any(lab == "Some" for dd, lab in gates(b, pushes[0].bb)) and in_cycle(b, pushes[0].bb)
         chk.ob("C19.c", f"{snap.path} [only metrics with a value]", ok, "an entry is emitted only when its kind's map has a value (described-only names are skipped)" if ok else "snapshot entries are not conditional on a value existing", snap.loc())
-        ckn = [c for c in nonforeign_calls(snap) if c.fn is snap and c.is_("CompositeKeyName::new")]
-        ok = len(ckn) == 1 and sym_is_call(sym_through(arg_syms(ckn[0])[0]), "CompositeKey::kind") and "name" in sym_str(arg_syms(ckn[0])[1])
+        # the key under which the description table is read
+        mg = [c for c in nonforeign_calls(snap) if c.fn is snap and "indexmap" in (c.resolved or "") and callee_method_name(c) in ("get", "get_full", "get_key_value") and "CompositeKeyName" in repr(c.t.get("gargs")) + (c.resolved or "") + repr(arg_syms(c)[1])]
+        ok = False
+        for c in mg:
+            ca = ctor_args(sym_through(arg_syms(c)[1]), "CompositeKeyName")
+            if ca and len(ca) == 2 and sym_is_call(sym_through(ca[0]), "CompositeKey::kind") and "name" in sym_str(ca[1]):
+                ok = True
         chk.ob("C19.c", f"{snap.path} [metadata by (kind, name)]", ok, "metadata is looked up under (ck.kind(), ck.key().name())" if ok else "metadata is not looked up by the entry's (kind, name)", snap.loc())
-
-    # ---------------- C19.d describe_metric
-    dmf = one_method(chk, "C19.d", u, f"{DBG}::DebuggingRecorder", "describe_metric")
-    if dmf:
-        b = dmf.body
-        sy = Sym(dmf)
-        writes = []
-        for i, k, s in b.stmts():
-            if s["k"] == "assign" and s["p"].get("pr") and not s.get("exp") and not b.blocks[i].get("cleanup"):
-                base = strip_sym(sy.local(s["p"]["l"]))
-                if "or_insert" in repr(base):
-                    writes.append((i, [e.get("f") for e in s["p"]["pr"] if isinstance(e, dict) and "f" in e] + [repr(base)[-40:]], strip_sym(sy.rvalue(s["rv"], 0, frozenset()))))
-        unit_w = [(i, v) for i, fl, v in writes if is_param(v, 2)]
-        desc_w = [(i, v) for i, fl, v in writes if is_param(v, 3)]
-        oku = len(unit_w) == 1 and any(lab is True and sym_is_call(dd, "Option<T>::is_some") and is_param(strip_sym(dd)[2][0], 2) for dd, lab in gates(b, unit_w[0][0])) or (len(unit_w) == 1 and any(lab == "Some" and is_param(dd, 2) for dd, lab in gates(b, unit_w[0][0])))
-        okd = len(desc_w) == 1 and not [r for r in b.return_blocks() if r in b.reachable(0, cut={desc_w[0][0]})]
-        chk.ob("C19.d", f"{dmf.path} [unit only when given]", oku, "the stored unit is replaced only when the new description carries Some(unit)" if oku else "a later description without a unit erases the earlier unit (or a given unit is not stored)", dmf.loc())
-        chk.ob("C19.d", f"{dmf.path} [description always]", okd, "the description is replaced on every describe" if okd else "the most recent description is not always stored", dmf.loc())
 
     # ---------------- C19.e
     if m is not None:
